@@ -2,6 +2,9 @@ import BV.Drive.PrefixArith
 import BV.Drive.Concat
 import BV.Drive.Pool
 import BV.Drive.Huffman
+import BV.Drive.Adapters
+import BV.Drive.Header
+import BV.Drive.Multi
 
 /-- line protocol: `<engine> <args…>` in, one canonical line out -/
 def dispatch (line : String) : String :=
@@ -11,6 +14,9 @@ def dispatch (line : String) : String :=
   | "pool" :: rest => BV.Drive.Pool.handlePool rest
   | "fq" :: rest => BV.Drive.Pool.handleFq rest
   | "huff" :: rest => BV.Drive.Huffman.handle rest
+  | "header" :: rest => BV.Drive.Header.handle rest
+  | "multi" :: rest => BV.Drive.Multi.handle rest
+  | "adapters" :: rest => BV.Drive.Adapters.handle rest
   | _ => "bad-engine"
 
 partial def loop (h : IO.FS.Stream) (out : IO.FS.Stream) : IO Unit := do
